@@ -18,12 +18,15 @@ package cli
 
 import (
 	"context"
+	"errors"
 	"fmt"
 	"io"
+	"io/fs"
 	"os"
 	"path/filepath"
 	"strconv"
 	"strings"
+	"syscall"
 
 	"github.com/sirupsen/logrus"
 
@@ -282,7 +285,7 @@ func WithEnvFiles(file ...string) ProjectOptionsFn {
 		defaultDotEnv := filepath.Join(wd, ".env")
 
 		s, err := os.Stat(defaultDotEnv)
-		if os.IsNotExist(err) {
+		if errors.Is(err, fs.ErrNotExist) || errors.Is(err, syscall.ENOTDIR) {
 			return nil
 		}
 		if err != nil {
